@@ -587,6 +587,22 @@ where
     fn next(&mut self) -> Option<Self::Item> {
         loop {
             if let Some(node) = self.inner.next() {
+                // A node name must be a single normal path component. Names like `..`, absolute
+                // paths or names containing a separator would make `join` leave the tree root
+                // (and thereby the restore destination).
+                let name = node.name();
+                let mut components = Path::new(&name).components();
+                if !matches!(
+                    (components.next(), components.next()),
+                    (Some(Component::Normal(comp)), None) if comp == &*name
+                ) {
+                    return Some(Err(RusticError::new(
+                        ErrorKind::Unsupported,
+                        "Tree node name `{name}` below `{path}` is not a single normal path component. Refusing to process this tree.",
+                    )
+                    .attach_context("name", name.to_string_lossy().to_string())
+                    .attach_context("path", self.path.display().to_string())));
+                }
                 let path = self.path.join(node.name());
                 if self.recursive
                     && let Some(id) = node.subtree
